@@ -50,6 +50,13 @@ Definition pubkey_of (kind : bytes) (a : arg) : pubkey :=
 (* the code as it is now (after the repairs recorded in known_findings.json) *)
 Definition fx : fixes := current.
 
+Definition kh_line_of (a : arg) : known_hosts_line :=
+  match a with
+  | AL [AZ 0%Z] => KhBlank
+  | AL [AZ 2%Z; AL hosts; AB blob; AB c] => KhEntry (map arg_bytes hosts) blob c
+  | _ => KhError
+  end.
+
 Fixpoint run_op (depth : nat) (op : bytes) (input : arg) : arg :=
   let i0 := arg_nth 0 input in
   let i1 := arg_nth 1 input in
@@ -82,12 +89,11 @@ Fixpoint run_op (depth : nat) (op : bytes) (input : arg) : arg :=
     obs_info (ssh_public_key_line (fx_size fx) (ssh_oracle_of (arg_nth 2 input))
                 (match i1 with AL [AB blob; AB c] => Some (blob, c) | _ => None end))
   else if bytes_eqb op (bs "knownhosts") then
-    obs_info (ssh_known_hosts_one (fx_size fx) (ssh_oracle_of (arg_nth 2 input))
-                (match i1 with
-                 | AL [AZ 0%Z] => KhBlank
-                 | AL [AZ 2%Z; AL hosts; AB blob; AB c] => KhEntry (map arg_bytes hosts) blob c
-                 | _ => KhError
-                 end))
+    obs_info (ssh_known_hosts_one (fx_size fx) (ssh_oracle_of (arg_nth 2 input)) (kh_line_of i1))
+  else if bytes_eqb op (bs "khfile") then
+    (* a known_hosts file of several lines: per line (library's split, library's verdict on the blob, expectation) *)
+    obs_info (ssh_known_hosts_file (fx_size fx)
+                (map (fun a => (ssh_oracle_of (arg_nth 1 a), kh_line_of (arg_nth 0 a))) (arg_list i1)))
   else if bytes_eqb op (bs "ppk") then obs_info (putty_ppk fx (ppk_of i1))
   else if bytes_eqb op (bs "pkcs1pub") then obs_info (parse_pkcs1_public (opt_bytes i1))
   else if bytes_eqb op (bs "pkcs1priv") then obs_info (parse_pkcs1_private (opt_bytes i1))
@@ -378,6 +384,23 @@ Definition check_C02 (op : bytes) (input impl : arg) : arg :=
           | [] => AL []
           end
     | _ => check_spec (arg_nth 0 (arg_nth 1 input)) impl
+    end
+  else if bytes_eqb op (bs "khfile") then
+    (* every line of the file is a well-formed entry with its own expectation (hosts, key facts, comment):
+       the k-th entry listed has to meet the k-th line's expectation *)
+    match impl with
+    | AL [AZ 0%Z; ia] =>
+        let i := info_of_arg ia in
+        let specs := map (arg_nth 2) (arg_list (arg_nth 1 input)) in
+        if negb (Nat.eqb (length (i_children i)) (length specs)) then AS "an entry of the known_hosts file is not listed (or one is listed twice)"
+        else
+          match filter (fun v => negb (arg_eqb v (AL [])))
+                  (map (fun ks => check_spec (snd ks) (AL [AZ 0%Z; arg_of_info (Info (i_desc i) [] [fst ks])])) (combine (i_children i) specs)) with
+          | v :: _ => v
+          | [] => AL []
+          end
+    | AL [AZ 2%Z] => AS "panic while describing a key"
+    | _ => AS "well-formed known_hosts file is not described"
     end
   else if bytes_eqb op (bs "e2e") then
     match check_spec (last_arg (arg_nth 1 input)) impl with
